@@ -205,6 +205,26 @@ async def small_udp(dep, conf, d, events, ports):
     await s.end(events, d)
 
 
+async def rude_udp(dep, conf, d, events, ports):
+    """A session of its own whose traffic is legal but awkward: a reply too long to be passed on whole (the path drops it),
+    a datagram with no payload answered by one with no payload, a datagram to a name that does not resolve.  Whatever that
+    costs, it costs THIS session: the sessions running beside it are owed every one of their datagrams (independence)."""
+    s = c02.Scenario(dep, conf, d["seed"], ports)
+    s.w.add_app(1, 0)
+    s.w.add_target(1, "127.0.0.1")
+    s.send(1, 1, 100, rep=1)
+    await s.w.drain(0, 2.0)
+    await asyncio.sleep(0.15)
+    s.w.send(1, 1, 200, rep=1, rsize=65506, must=True)
+    s.w.no_must_reply.add(len(s.w.sent))
+    await asyncio.sleep(0.1)
+    s.send(1, 1, 0, rep=1, rsize=0)
+    hdr = b"\x00\x00\x00" + e2e.socks5_addr("no-such-host-c09.invalid", 5353)
+    s.w.send(1, 1, 48, rep=0, must=False, raw_header=hdr)
+    await s.w.drain(0, 2.0)
+    await s.end(events, d)
+
+
 async def same_handshake(dep, conf, copies, target_port_holder):
     """One Shadowsocks 2022 request, built by the reference codec, presented on `copies` connections at the same moment."""
     dials = []
@@ -283,6 +303,7 @@ async def concurrent_run(c, conf, workers, n_flows, n_udp, rnd, big, tag):
         if udp_on:
             for k in range(n_udp):
                 jobs.append(small_udp(dep, conf, {"kind": "small", "seed": vlib.seed() * 100000 + workers * 100 + k, "napps": rnd.randint(1, 3), "n": 30}, udp_events, ports))
+            jobs.append(rude_udp(dep, conf, {"kind": "rude", "seed": vlib.seed() * 100000 + workers * 100 + 90}, udp_events, ports))
         res = await asyncio.gather(*jobs)
         ev = res[0]
         tcp_batches.append(ev)
